@@ -98,6 +98,17 @@ def build_world(prog, sched):
         wire = deque()
         port = ports_mod.IOPort(WirePort('in', wire=wire), WirePort('out', wire=wire))
         send = port.send
+    elif kind == 'ioport-shared':
+        # the wrapped output device is also used directly (and by a second wrapper): all paths must serialise on it
+        wire = deque()
+        inp, outp = WirePort('in', wire=wire), WirePort('out', wire=wire)
+        port = ports_mod.IOPort(inp, outp)
+        second = ports_mod.IOPort(inp, outp)
+        routes = [port.send, outp.send, second.send]
+
+        def send(m, _routes=routes):
+            me = sched.me()
+            _routes[(me.idx if me else 0) % len(_routes)](m)
     elif kind in ('multi', 'multi-yield'):
         # (a wire sub-port serialises to bytes and drops `time`, the only attribute of the real-time kind)
         subs = [ports_mod.EchoPort(), ports_mod.EchoPort() if prog.get('sysex') == 'rt' else WirePort('w2')]
@@ -286,7 +297,7 @@ def nontrivial(case):
 
 def small_programs():
     progs = []
-    for port in ('wire', 'echo', 'ioport-same', 'ioport-pair', 'multi', 'multi-yield', 'pqueue'):
+    for port in ('wire', 'echo', 'ioport-same', 'ioport-pair', 'ioport-shared', 'multi', 'multi-yield', 'pqueue'):
         two = 2 if not port.startswith('multi') else 4
         progs.append({'port': port, 'senders': [1, 1], 'receivers': [{'mode': 'poll', 'quota': two}], 'sysex': True})
         progs.append({'port': port, 'senders': [2], 'receivers': [{'mode': 'poll', 'quota': two // 2},
@@ -344,7 +355,8 @@ def enum_shard(rec, shard):
 
 @st.composite
 def drawn_cases(draw):
-    port = draw(st.sampled_from(['wire', 'echo', 'ioport-same', 'ioport-pair', 'multi', 'multi-yield', 'pqueue']))
+    port = draw(st.sampled_from(['wire', 'echo', 'ioport-same', 'ioport-pair', 'ioport-shared', 'multi', 'multi-yield',
+                                 'pqueue']))
     senders = draw(st.lists(st.integers(1, 3), min_size=1, max_size=3))
     total = sum(senders) * (2 if port.startswith('multi') else 1)
     nrec = draw(st.integers(1, 2))
